@@ -67,8 +67,9 @@ func BuildMethodCallMap(dataStructs []core_domain.CodeDataStruct, projectMaps ma
 	return methodCallMap
 }
 
+// escapeStr makes a name safe between the double quotes of a DOT string: backslashes first, then quotes.
 func escapeStr(name string) string {
-	return strings.ReplaceAll(name, "\"", "\\\"")
+	return strings.ReplaceAll(strings.ReplaceAll(name, "\\", "\\\\"), "\"", "\\\"")
 }
 
 var loopCount = 0
